@@ -101,6 +101,15 @@ def ref_extras(extra, ts):
     """The ideal conversion of the surplus positional values and of the keyword-only parameter (default 3)."""
     if extra is None:
         return (), {}
+    if extra[0] == "po":
+        # the signature with positional-only parameters next to **kw: str -- a keyword named like a positional-only
+        # parameter is one more **kw item (Python's binding), each **kw value is converted to str
+        _, po, scale, kws = extra
+        conv = bool(ts.get("A", "Leaf"))
+        rest = () if po is None else ((_conv(po, "int"),) if conv else (po,))
+        kw = {k: (_conv(v, "str") if conv else v) for k, v in kws.items()}
+        kw["scale"] = 3 if scale is None else _conv(scale, "int")
+        return rest, kw
     rest, scale = extra
     rest = tuple(_conv(x, "PosInt") for x in rest) if ts.get("A", "Leaf") else tuple(rest)
     scale = 3 if scale is None else _conv(scale, "int")
@@ -162,6 +171,9 @@ dec_co = utype.parse(raw_co, eager={eager}{opt})
     rich = bool(plan.get("rich"))
     sig = "a: Leaf, key: int = 0, *rest: PosInt, scale: int = utype.Param(3)" if rich else "a: Leaf, key: int = 0"
     ent = '["entered", cn(a), cn(list(rest)), cn(scale)]' if rich else '["entered", cn(a)]'
+    if plan.get("rich") == "po":
+        sig = "a: Leaf, key: int = 0, po: int = 1, /, scale: int = utype.Param(3), **kw: str"
+        ent = '["entered", cn(a), cn(po), cn(scale), cn([[k, kw[k]] for k in sorted(kw)])]'
     return f'''
 import utype, asyncio
 from typing import Generator, Iterator, AsyncGenerator, AsyncIterator
@@ -257,13 +269,20 @@ def generate(rng, tier):
         plan["ignore"] = rng.choice(["result", "params"])
     # a richer signature: surplus positional values of a constrained type, a keyword-only parameter with a Param default
     plan["rich"] = plan.get("ignore") != "params" and plan["ctx"] == "func" and rng.random() < 0.3
+    if plan["rich"] and rng.random() < 0.4:
+        # positional-only parameters (one with a default, left out or given) next to **kw: str, keywords named like them
+        plan["rich"] = "po"
     ncons = rng.choice([1, 1, 2, 3])
     pool = [1, []]
     consumers = []
     for ci in range(ncons):
         c = {"arg": None, "body": [], "script": []}
         c["arg"] = _gen_value(rng, "Leaf", pool) if rng.random() < 0.92 else rng.choice(["zz", 3])
-        if plan["rich"]:
+        if plan["rich"] == "po":
+            c["po"] = rng.choice([None, None, 2, "3", "zz"])
+            c["kw"] = {k: rng.choice([5, "6", 7.5]) for k in rng.sample(["po", "x", "PO"], rng.choice([0, 1, 1, 2]))}
+            c["scale"] = rng.choice([None, None, 4, "5", "zz"])
+        elif plan["rich"]:
             c["rest"] = [rng.choice([1, "2", 0, -3, "-1", 7]) for _ in range(rng.choice([0, 1, 2]))]
             c["scale"] = rng.choice([None, None, 4, "5", "zz"])
         nb = rng.choice([1, 2, 3, 4])
@@ -689,12 +708,19 @@ def execute(plan):
             res.violate("C08|class_deco|binding|default_not_applied",
                         f"K.bare() (def bare(n=Param(7, ge=0)) in a class decorated with @utype.parse) returned {kernel.clean_text(r, 80)}, the declared default is 7")
     def extra(ci):
+        if plan.get("rich") == "po":
+            return ("po", cons[ci].get("po"), cons[ci].get("scale"), dict(cons[ci].get("kw") or {}))
         return (list(cons[ci].get("rest") or []), cons[ci].get("scale")) if plan.get("rich") else None
 
     def dec_call(fn, ci):
         ex = extra(ci)
         if ex is None:
             return fn(val(cons[ci]["arg"]), ci)
+        if ex[0] == "po":
+            kws = dict(ex[3])
+            if ex[2] is not None:
+                kws["scale"] = ex[2]
+            return fn(val(cons[ci]["arg"]), ci, *([] if ex[1] is None else [ex[1]]), **kws)
         return fn(val(cons[ci]["arg"]), ci, *ex[0], **({} if ex[1] is None else {"scale": ex[1]}))
     if kind == "sync":
         got = drive_sync(lambda ci: dec_call(mod.dec_sync, ci), plan, 0)
@@ -814,7 +840,7 @@ def execute(plan):
             res.violate(f"C08|{tag}|body|resumed_after_parse_failure",
                         f"consumer {ci}: the body ran on after a conversion failure: {glog[failure_at:]}")
     if nontriv:
-        res.nontrivial = kernel.digest_of([plan["kind"], plan["eager"], plan["types"], plan.get("collect"), plan.get("ctx"), plan.get("late_types"), plan.get("ignore"), plan.get("rich"), [[c["body"], c.get("rest"), c.get("scale")] for c in cons] if plan.get("rich") else 0, [[c["body"], c["script"]] for c in cons],
+        res.nontrivial = kernel.digest_of([plan["kind"], plan["eager"], plan["types"], plan.get("collect"), plan.get("ctx"), plan.get("late_types"), plan.get("ignore"), plan.get("rich"), [[c["body"], c.get("rest"), c.get("scale"), c.get("po"), c.get("kw")] for c in cons] if plan.get("rich") else 0, [[c["body"], c["script"]] for c in cons],
                                            plan.get("interleave"), plan.get("loop", {}).get("mode"), plan.get("cancel")])
     CTX.clear()
     return res
